@@ -558,6 +558,9 @@ func keyDecision(a *ssa.Alloc) string {
 		return engine.GuardedBy(st, zeroIs(true)) || engine.GuardedBy(st, zeroIs(false))
 	}
 	switch {
+	case engine.GuardedBy(base, zeroIs(true)) && engine.GuardedBy(perm, zeroIs(false)):
+		// if s.PermKey.Zero() { key = s.Key } else { key = s.PermKey }: each value
+		// on its own outcome, no default
 	case engine.Dominates(base, perm) && !onZero(base):
 		if !engine.GuardedBy(perm, zeroIs(false)) {
 			return "s.PermKey is not chosen exactly under !s.PermKey.Zero()"
